@@ -48,6 +48,9 @@ class FakeThread:
     def start(self):
         if ENG is None:
             raise HarnessError("helper thread started outside a case")
+        if ENG.controlled_for is not None:
+            # a watcher thread of another scheduler (see ControlledThread)
+            return ControlledThread(self.target, ENG.controlled_for).start()
         enabled = None
         t = self.target
         if getattr(t, "__qualname__", "").startswith("TokenFile.watch") and t.__closure__:
@@ -60,6 +63,129 @@ class FakeThread:
                 self.name = "reclaim:" + Path(tf.path).name
                 self.tokenfile = str(tf.path)
         ENG.add_event("thread", self.name, lambda: self.target(*self.args, **self.kwargs), enabled=enabled, thread=self)
+
+
+class _DetSet:
+    """Stands for the `set` of dependency objects held by a job (as target) or a resource (as
+    origin): iteration follows insertion order - or its reverse when the case says so - instead of
+    the memory addresses of the objects (the one source of nondeterminism inside the scheduler)"""
+
+    def __init__(self, items=()):
+        self._d = {}
+        self.update(items)
+
+    def add(self, x):
+        self._d.setdefault(x, None)
+
+    def update(self, xs):
+        for x in xs:
+            self.add(x)
+
+    def discard(self, x):
+        self._d.pop(x, None)
+
+    def remove(self, x):
+        del self._d[x]
+
+    def __contains__(self, x):
+        return x in self._d
+
+    def __len__(self):
+        return len(self._d)
+
+    def __iter__(self):
+        keys = list(self._d)
+        if ENG is not None and ENG.case.get("deporder"):
+            keys.reverse()
+        return iter(keys)
+
+
+_CURRENT = threading.local()
+
+
+class _Abandoned(BaseException):
+    """Unwinds a controlled thread still blocked when its case ends"""
+
+
+class ControlledThread:
+    """A real thread of the code under test that only runs while the engine waits for it: it runs
+    until it blocks in Process.wait() on a live process (or ends); the engine resumes it, as one
+    event, once that process is gone.  Used for the TokenFile.watch threads of *other* schedulers
+    on the token files of our jobs: their continuation after wait() is the code under test."""
+
+    def __init__(self, target, tokenfile):
+        self.target = target
+        self.path = Path(tokenfile.path)
+        self.sig = threading.Semaphore(0)
+        self.go = threading.Semaphore(0)
+        self.finished = False
+        self.abandon = False
+        self.error = None
+        self.blocked_on = None
+        self.eng = ENG
+
+    def start(self):
+        self.eng.controlled.append(self)
+        self.thread = threading.Thread(target=self._run, daemon=True)
+        self.thread.start()
+        self._stopped()
+
+    def _run(self):
+        _CURRENT.ct = self
+        try:
+            self.target()
+        except _Abandoned:
+            pass
+        except BaseException as e:  # noqa: reported as a note, consequences are judged on the directory
+            self.error = e
+        finally:
+            self.finished = True
+            self.sig.release()
+
+    def block(self, pid):
+        """(in the thread) Process.wait() on a live process"""
+        self.blocked_on = pid
+        self.sig.release()
+        self.go.acquire()
+        self.blocked_on = None
+        if self.abandon:
+            raise _Abandoned()
+
+    def _stopped(self):
+        """(engine side) wait until the thread blocks or ends; queue its continuation"""
+        if not self.sig.acquire(timeout=60):
+            raise HarnessError("a controlled thread neither blocked nor finished")
+        eng = self.eng
+        if self.finished:
+            if self.error is not None:
+                eng.notes.add(f"foreign-watcher-died:{type(self.error).__name__}")
+            return
+        pid = self.blocked_on
+        if eng.case.get("reclaim_late") and pid in eng.own_pids:
+            eng.late_threads.append(self)  # queued when the job it watched is launched again
+        else:
+            self.queue()
+
+    def queue(self):
+        eng, pid = self.eng, self.blocked_on
+        eng.add_event("foreign", f"watcher-resumes:{self.path.parent.name}", self.resume, enabled=lambda: pid not in eng.live_pids, controlled=self)
+
+    def resume(self):
+        eng = self.eng
+        existed = self.path.is_file()
+        self.go.release()
+        self._stopped()
+        if existed and not self.path.is_file():
+            eng.notes.add("foreign-watcher-removes-our-token-file")
+            if any(m.alive and m.alive_obj is not None and self.path.name == f"{m.alive_obj.identifier}.token" for m in eng.jobs.values()):
+                # the file had been written again, under the same name, for a later run of the job
+                eng.notes.add("foreign-watcher-removes-recreated-token-file")
+
+    def stop(self):
+        if not self.finished:
+            self.abandon = True
+            self.go.release()
+            self.thread.join(5)
 
 
 class _ThreadingShim:
@@ -129,6 +255,20 @@ def install():
             raise
 
     xtok.CounterToken.acquire = acquire
+    import experimaestro.connectors.local as xlocal
+
+    real_wait = xlocal.PsutilProcess.wait
+
+    def wait(self):
+        ct = getattr(_CURRENT, "ct", None)
+        if ct is None:
+            return real_wait(self)
+        pid = self._process.pid
+        if pid in ct.eng.live_pids:
+            ct.block(pid)
+        return None
+
+    xlocal.PsutilProcess.wait = wait
     real_tf_init = xtok.TokenFile.__init__
 
     def tf_init(self, path):
@@ -148,6 +288,13 @@ def install():
         return real_add(self, dependency)
 
     xdep.Dependents.add = add
+    real_dep_init = xdep.Dependents.__init__
+
+    def dep_init(self):
+        real_dep_init(self)
+        self._dependents = _DetSet()
+
+    xdep.Dependents.__init__ = dep_init
     for cls in sim.TASK_CLASSES:
         t = cls.__getxpmtype__()
         t.__initialize__()
@@ -200,6 +347,7 @@ def _define_vjob():
             object.__setattr__(self, "history", [])
             object.__setattr__(self, "idx", config.idx)
             super().__init__(config, workspace=workspace, launcher=launcher, run_mode=run_mode)
+            self.dependencies = _DetSet(self.dependencies)
             self.spec = ENG.case["jobs"][self.idx]
             ENG.on_job_created(self)
 
@@ -293,6 +441,11 @@ class Engine:
         self.known_files = {}
         self.foreign = {}  # (f, ti) -> holding
         self.foreign_jobs = {}  # f -> dict(dir, child, alive, scheduler_dies, holdings)
+        self.controlled = []  # ControlledThread objects of this case
+        self.controlled_for = None  # TokenFile whose watch() is being started on behalf of a foreign scheduler
+        self.late_threads = []  # controlled threads held back until the job they watched runs again
+        self.own_pids = {}  # pid -> (job object, Popen) of the stand-in processes of our jobs (cases with foreign readers)
+        self.live_pids = set()
         self.foreign_watches = {}  # (token file, id(job object)) -> job object watched by a live foreign scheduler
         self.children = []
         self.step_no = 0
@@ -305,6 +458,7 @@ class Engine:
         self.resubmitted = False
         self.stale_fs = []
         self.tokdir_run = run_index
+        self.need_pids = any(t["kind"] == "file" for t in case["tokens"]) and (bool(case.get("observer")) or any(op[0] in ("facq", "fopen") for op in case["plan"]))
         self.read_racers = []  # (f, ti): removed (reclaimed by a third scheduler's watcher) while we read the directory
         self.early_reclaim = False
         self.release_racers = []  # (f, ti): foreign holdings released at our next refused acquisition
@@ -355,6 +509,23 @@ class Engine:
         m.alive = not job.spec.get("launch_error")
         m.alive_obj = job
         self.log.append(("launch", job.idx, self.step_no))
+        if self.need_pids and m.alive:
+            # a stand-in process and the .pid file the scheduler writes: what the threads of other
+            # schedulers that watch this job look at
+            child = subprocess.Popen(["sleep", "3600"], start_new_session=True)
+            self.children.append(child)
+            self.own_pids[child.pid] = (job, child)
+            self.live_pids.add(child.pid)
+            job.pidpath.write_text(json.dumps({"type": "local", "pid": child.pid}))
+        for ct in [c for c in self.late_threads if c.path.name == f"{job.identifier}.token"]:
+            self.late_threads.remove(ct)
+            ct.queue()
+        if self.case.get("observer") and m.alive:
+            # another live scheduler has the tokens open: its file watcher sees every token file we write
+            # and starts a thread that waits for the job behind it
+            for ti, tok in enumerate(self.case["tokens"]):
+                if tok["kind"] == "file":
+                    _foreign_watches_ours(self, ti)
         # C04 (dynamic): every upstream job has finished successfully
         for u in m.ups:
             um = self.jobs[u]
@@ -383,17 +554,23 @@ class Engine:
         m.alive = False
         m.exits.append(job.spec["code"])
         self.log.append(("exit", job.idx, job.spec["code"], self.step_no))
-        # the threads of other schedulers that wait for this process wake up (each removes the token
-        # file it watches, without any lock, whenever it gets to run)
-        for (path, oid), watched in list(self.foreign_watches.items()):
-            if watched is job:
-                del self.foreign_watches[(path, oid)]
+        # the stand-in process ends; a job that ends on its own removes its .pid file
+        for pid, (o, child) in list(self.own_pids.items()):
+            if o is job and pid in self.live_pids:
+                child.kill()
+                child.wait()
+                self.live_pids.discard(pid)
+                try:
+                    job.pidpath.unlink()
+                except FileNotFoundError:
+                    pass
                 if self.case.get("reclaim_first"):
-                    # ... before our own scheduler has handled the end of the process
-                    _foreign_reclaims_ours(self, path)
-                    self.notes.add("foreign-watcher-acts-before-our-release")
-                else:
-                    self.add_event("foreign", f"reclaim-ours:{path.parent.name}", lambda p=path: _foreign_reclaims_ours(self, p))
+                    # the threads of other schedulers that waited for this process run before our
+                    # own scheduler has handled its end
+                    for ev in [e for e in self.pending if e.meta.get("controlled") is not None and e.meta["controlled"].blocked_on == pid]:
+                        self.pending.remove(ev)
+                        ev.fn()
+                        self.notes.add("foreign-watcher-acts-before-our-release")
 
     # --- model helpers
     def failed_ancestors(self, j, seen=None):
@@ -867,7 +1044,17 @@ def _run_one(case, scratch, run_index, done_before, prev=None, xp_name=None, end
             if not step(c):
                 break
         guard = 0
-        while step(0):
+        # once the generated schedule is exhausted: oldest event first, or (case option) choices
+        # derived from a generated seed, so that late decisions vary too
+        rnd = [int(case.get("tailseed") or 0)]
+
+        def tail_choice():
+            if not rnd[0]:
+                return 0
+            rnd[0] = (rnd[0] * 1103515245 + 12345) % (1 << 31)
+            return (rnd[0] >> 16) % 8
+
+        while step(tail_choice()):
             guard += 1
             if guard > 5000:
                 raise HarnessError("case does not quiesce (event storm)")
@@ -881,6 +1068,8 @@ def _run_one(case, scratch, run_index, done_before, prev=None, xp_name=None, end
     finally:
         ENG = eng  # substitutes may still report during teardown
         try:
+            for ct in eng.controlled:
+                ct.stop()
             for c in eng.children:
                 try:
                     c.kill()
@@ -1034,25 +1223,28 @@ def _foreign_acquire(eng, f, ti, w, twostep, scheduler_dies):
 
 def _foreign_watches_ours(eng, ti):
     """A live foreign scheduler has just read the directory of token ti: for every token file of a
-    running job of ours it starts a thread that waits for the job's process (TokenFile.watch)"""
+    running job of ours it does what CounterToken._update does with a file it does not know -
+    TokenFile(path).watch() - the thread being a ControlledThread (real code, resumed by the engine)"""
+    import experimaestro.tokens as xtok
+
+    if not eng.need_pids:
+        return
     d = eng.tokdir(ti)
-    for p in d.glob("*.token"):
+    for p in sorted(d.glob("*.token")):
         for m in eng.jobs.values():
             o = m.alive_obj
-            if m.alive and o is not None and p.name == f"{o.identifier}.token":
-                eng.foreign_watches.setdefault((p, id(o)), o)
+            if m.alive and o is not None and p.name == f"{o.identifier}.token" and (p, id(o)) not in eng.foreign_watches:
+                try:
+                    tf = xtok.TokenFile(p)
+                except (FileNotFoundError, ValueError):
+                    continue
+                eng.foreign_watches[(p, id(o))] = o
+                eng.controlled_for = tf
+                try:
+                    tf.watch()
+                finally:
+                    eng.controlled_for = None
                 eng.notes.add("foreign-scheduler-watches-our-job")
-
-
-def _foreign_reclaims_ours(eng, path):
-    """TokenFile.watch.run() of a foreign scheduler, after the process it waited for ended"""
-    if path.is_file():
-        owner = [m.idx for m in eng.jobs.values() if m.alive and m.alive_obj is not None and path.name == f"{m.alive_obj.identifier}.token"]
-        path.unlink()
-        eng.notes.add("foreign-watcher-removes-our-token-file")
-        if owner:
-            # the file had been written again, under the same name, for a later run of the job
-            eng.notes.add("foreign-watcher-removes-recreated-token-file")
 
 
 def _foreign_preheld(eng, f, ti, w, racer):
